@@ -66,18 +66,31 @@ def uses(content):
 
 
 def input_class(content):
-    """(dup, collide): some emitted definition would repeat a parameter name (any initial-assignment / coefficient
-    use, or the last use under a derived / reaction function name) / some derived quantity or reaction refers to a
-    `__name__` whose emitted definition comes from a different function"""
+    """(dup, collide, unsure): some emitted definition would repeat a parameter name (any initial-assignment /
+    coefficient use, or the last use under a derived / reaction function name) / some `__name__` is shared by two
+    different functions of derived quantities or reactions (generation refuses, after the repair of F-C11-1) /
+    the two same-named functions are different objects with different texts that compute the same polynomial (whether
+    the generator takes them for the same function depends on sympy's normal form: either outcome is accepted)"""
     us = uses(content)
-    winner = {}
+    winner, idents = {}, {}
     for kind, name, idn, args in us:
         if kind == "comp":
             winner[name] = (idn, args)
+            idents.setdefault(name, set()).add(idn)
     dup = (any(len(set(args)) != len(args) for kind, _, _, args in us if kind == "gen")
            or any(len(set(args)) != len(args) for _, args in winner.values()))
-    collide = any(winner[name][0] != idn for kind, name, idn, _ in us if kind == "comp")
-    return dup, collide
+    collide = any(len(v) > 1 for v in idents.values())
+    unsure = False
+    for v in idents.values():
+        if len(v) > 1:
+            try:
+                polys = {json.dumps(sorted((list(m), str(c)) for m, c in cg.poly(json.loads(e), ar).items())) + f"/{ar}"
+                         for _, e, ar in v}
+            except ValueError:
+                polys = set(v)
+            if len(polys) < len(v):
+                unsure = True
+    return dup, collide, unsure
 
 
 def expected_def_keys(content):
@@ -113,11 +126,9 @@ def expected_def_keys(content):
 
 
 def classify(content):
-    """finding class of an input that gets past generation (repeated parameter names make generation raise
-    ValueError since the repair of F-C11-2; that is the claim's "or fails", not a finding)"""
-    dup, collide = input_class(content)
-    if collide and not dup:
-        return "F-C11-1"
+    """finding class of an input that gets past generation: none is left (repeated parameter names and two different
+    same-named functions make generation raise ValueError since the repairs of F-C11-2 / F-C11-1; that is the claim's
+    "or fails", not a finding)"""
     return None
 
 
@@ -462,7 +473,8 @@ def judge_oracle_only(ctx, case, R):
     classes = cg.rich_classes(case["content"])
     # "recip-modulus" (x % (1/p), formerly F-C11-4) is repaired and judged like any other input
     fid = "F-C11-5" if "shared-modulus" in classes else None
-    dup, collide = input_class(case["content"])
+    dup, collide, _unsure = input_class(case["content"])
+    dup = dup or collide
     ctx.count({k: case[k] for k in ("content", "queries", "bad")},
               f"{case.get('stratum', '?')}:{cg.shape_of(case['content'])}:{fid or 'in-scope'}")
     base = {k: case[k] for k in ("content", "bad", "decl_seed", "oracle_only") if k in case}
@@ -476,11 +488,8 @@ def judge_oracle_only(ctx, case, R):
     if "gen" in R:
         ctx.judge(dict(base, queries=[]), R["gen"], {"ok": "source emitted"}, None, what="generation raised (oracle-only stratum)")
         return
-    if not collide:
-        ctx.judge(dict(base, queries=[]), R["R_struct"], R["S_struct"], None,
-                  what="component names / kinds / arguments / plain values (oracle-only stratum)")
-    else:
-        return      # name collisions are the subject of the exact strata
+    ctx.judge(dict(base, queries=[]), R["R_struct"], R["S_struct"], None,
+              what="component names / kinds / arguments / plain values (oracle-only stratum)")
     for i, q in enumerate(case["queries"]):
         S, Rq = R["S"][i], R["R"][i]
         if "err" in S or not cg.finite_answer(S):
@@ -493,9 +502,10 @@ def judge_oracle_only(ctx, case, R):
 
 def judge_phase(ctx, case, R, M, tag=""):
     fid = classify(case["content"])
-    dup, collide = input_class(case["content"])
+    dup, collide, unsure = input_class(case["content"])
     ctx.count({k: case[k] for k in ("content", "queries", "bad")},
-              f"{case.get('stratum', '?')}:{cg.shape_of(case['content'])}:{fid or ('repeated-parameter' if dup else 'in-scope')}")
+              f"{case.get('stratum', '?')}:{cg.shape_of(case['content'])}:"
+              + ("same-name-same-polynomial" if unsure else "two-functions-one-name" if collide else "repeated-parameter" if dup else "in-scope"))
     oc = case.get("_orig", case)     # a violation of the second phase is replayed as the whole session
     base = {k: oc[k] for k in ("content", "bad", "decl_seed", "session") if k in oc}
     # ---- generation raises exactly when a function cannot be translated
@@ -516,15 +526,28 @@ def judge_phase(ctx, case, R, M, tag=""):
     if M is not None and M["hypKeys"] and not M["hypSrc"]:
         ctx.add_drift(dict(base, queries=[]), {"keysInjective": True}, {"refsSrcOk": False},
                       "input-level hypothesis does not imply the program-level one")
-    # ---- a definition that would repeat a parameter name: generation raises, no source is emitted
-    if dup:
+    # ---- two same-named function objects whose texts differ but compute the same polynomial: the generator may take them
+    #      for one function (source emitted, judged below against the original) or for two (ValueError); the Lean model,
+    #      which identifies functions by their text, is not consulted
+    if unsure:
+        ctx.hist["same_name_same_polynomial"] = ctx.hist.get("same_name_same_polynomial", 0) + 1
+        if "gen" in R:
+            ctx.judge(dict(base, queries=[]), R["gen"], {"err": ["ValueError"]}, None,
+                      what="generation raised for same-named functions with different texts" + tag)
+            return
+        M = None
+        collide = False
+    # ---- two different functions with one name, or a definition that would repeat a parameter name: generation raises,
+    #      no source is emitted
+    if dup or collide:
         Mg = None
         if M is not None:
             Mg = canon_M_err(M["rt"]["err"]) if "err" in M["rt"] else {"ok": "source emitted"}
             if "ok" in M["program"]:
                 ctx.add_drift(dict(base, queries=[]), {"err": ["ValueError"]}, {"ok": "program"}, "Lean generator emits a program with a repeated parameter")
         ctx.judge(dict(base, queries=[]), R.get("gen", {"ok": "source emitted"}), {"err": ["ValueError"]}, Mg,
-                  what="generation must raise for a repeated parameter name" + tag)
+                  what=("generation must raise for two different functions with one name" if collide else
+                        "generation must raise for a repeated parameter name") + tag)
         return
     if "gen" in R:
         ctx.judge(dict(base, queries=[]), R["gen"], {"ok": "source emitted"}, None, what="generation raised")
